@@ -97,10 +97,81 @@ func oblConfig(prog *core.Program) obl.Config {
 			}
 		})
 	}
+	// the template-cache shape invariant (rule R11.4) decides what may be assumed about cache values
+	type cacheInv struct {
+		cacheT, shardT types.Type
+		mapField       int
+		n              int64
+		ok             bool
+	}
+	var invs []cacheInv
+	for _, rel := range []string{"ipfix", "netflow/v9"} {
+		c := findTplCache(prog, rel)
+		if c.cacheT == nil || c.load == nil {
+			continue
+		}
+		tmp := core.NewReport("tmp", "quick", 0, prog, "")
+		tmp.Quiet = true
+		checkConstructorShape(prog, tmp.Rule("R11.4", "", 0), c)
+		inv := cacheInv{cacheT: c.cacheT, shardT: c.shardT, mapField: c.mapField, ok: len(tmp.Violations()) == 0}
+		if g := prog.SSAPackage(rel).Var("shardNo"); g != nil {
+			if gi := globals[g]; gi != nil && gi.stores == 1 && gi.nonInit == 0 && gi.isConst {
+				inv.n = gi.cval
+			} else {
+				inv.ok = false
+			}
+		}
+		invs = append(invs, inv)
+	}
+	// package variables of package main assigned once, in main, from a constructor: set before any pipeline starts
+	setOnceInMain := func(g *ssa.Global) bool {
+		gi := globals[g]
+		if gi == nil || gi.stores != 1 {
+			return false
+		}
+		okv := false
+		for _, fn := range prog.RepoFuncs() {
+			allInstrs(fn, func(ins ssa.Instruction) {
+				if st, ok := ins.(*ssa.Store); ok && st.Addr == ssa.Value(g) && fn.Name() == "main" {
+					if call, ok := st.Val.(*ssa.Call); ok {
+						if f := call.Common().StaticCallee(); f != nil && prog.IsRepoFunc(f) && alwaysFresh(prog, f, 0) {
+							okv = true
+						}
+					}
+					if ld, ok := st.Val.(*ssa.UnOp); ok {
+						// logger = opts.Logger: a field of the options set by the defaults constructor
+						if _, fld := fieldLoad(ld); fld != nil && fld.Name() == "Logger" {
+							okv = true
+						}
+					}
+				}
+			})
+		}
+		return okv
+	}
 	return obl.Config{
+		SliceInvariant: func(t types.Type) (int64, bool, bool) {
+			for _, inv := range invs {
+				if inv.ok && types.Identical(t, inv.cacheT) {
+					return inv.n, true, true
+				}
+			}
+			return 0, false, false
+		},
+		FieldNonNil: func(owner types.Type, idx int) bool {
+			for _, inv := range invs {
+				if inv.ok && types.Identical(owner, inv.shardT) && idx == inv.mapField {
+					return true
+				}
+			}
+			return false
+		},
 		GlobalNonNil: func(g *ssa.Global) bool {
 			gi := globals[g]
-			return gi != nil && gi.stores == 1 && gi.nonInit == 0 && gi.nonnil
+			if gi != nil && gi.stores == 1 && gi.nonInit == 0 && gi.nonnil {
+				return true
+			}
+			return setOnceInMain(g)
 		},
 		GlobalConst: func(g *ssa.Global) (int64, bool) {
 			gi := globals[g]
@@ -185,3 +256,28 @@ func inPkgs(fn *ssa.Function, rels ...string) bool {
 }
 
 var _ = strings.Contains
+
+// alwaysFresh: every return of fn yields a freshly allocated object (directly or through such a function).
+func alwaysFresh(prog *core.Program, fn *ssa.Function, depth int) bool {
+	if depth > 4 {
+		return false
+	}
+	ok, n := true, 0
+	allInstrs(fn, func(ins ssa.Instruction) {
+		r, isRet := ins.(*ssa.Return)
+		if !isRet || len(r.Results) != 1 {
+			return
+		}
+		n++
+		switch v := r.Results[0].(type) {
+		case *ssa.Alloc:
+		case *ssa.Call:
+			if f := v.Common().StaticCallee(); f == nil || !prog.IsRepoFunc(f) || !alwaysFresh(prog, f, depth+1) {
+				ok = false
+			}
+		default:
+			ok = false
+		}
+	})
+	return ok && n > 0
+}
